@@ -505,7 +505,10 @@ class X12LoopDataNode(X12DataNode):
             try:
                 for loop in [loop for loop in curr.children if loop.type == 'loop']:
                     if loop.id == next_id:
-                        return loop.get_first_matching_segment(xpath.format())
+                        # first FOUND segment: a repeat that does not hold it is passed over
+                        seg = loop.get_first_matching_segment(xpath.format())
+                        if seg is not None:
+                            return seg
                 return None
             except errors.EngineError as e:
                 raise errors.X12PathError('X12 Path is invalid or was not found: %s' % (x12_path_str))
